@@ -20,11 +20,19 @@ class Preempt:
     name = 'replay'
 
     def __init__(self, preempts):
+        self.raw = [tuple(p) for p in preempts]
         self.table = {}
-        for cur, nstep, target in preempts:
-            self.table[(cur, nstep)] = target
+        for pre in self.raw:
+            if len(pre) == 3:
+                self.table[(pre[0], pre[1])] = pre[2]
         self.used = 0
         self.missed = 0
+
+    def for_run(self, run, _scn=None):
+        '''Histories of several simulated processes record pre-emptions as
+        (run, tid, local step, target).'''
+        return Preempt([pre[1:] for pre in self.raw
+                        if len(pre) == 4 and pre[0] == run])
 
     def choose(self, sim, cands, cur_tid):
         me = sim.cur
